@@ -16,6 +16,7 @@ r = one `serve()` iteration of rank r) is a schedule the Lean model replays.
 """
 import collections
 import importlib.util
+import io
 import os
 import sys
 import threading
@@ -182,7 +183,7 @@ def install_jobs(world):
     sys.modules[JOBS_MODULE] = m
 
 
-def run_world(size, rng, policy, master_fn, mode="mpi", yield_on_send=False):
+def run_world(size, rng, policy, master_fn, mode="mpi", yield_on_send=False, verbose=False):
     """Run `master_fn(inst0, world)` as `master()` under the real `run()` on rank 0 and
     the real `run()` (-> `serve()`) on ranks 1..size-1.  Returns a dict of observations."""
     world = World(size, rng, policy)
@@ -200,7 +201,10 @@ def run_world(size, rng, policy, master_fn, mode="mpi", yield_on_send=False):
     def body(rank):
         try:
             world.yield_(rank)
-            insts[rank].run()
+            if verbose:
+                insts[rank].run(verbose=True)      # the `if _verbose:` statements of every function
+            else:
+                insts[rank].run()
             out["returned"][rank] = True
             if rank == 0:
                 world.sched.append(0)          # terminate() inside run()
@@ -216,6 +220,9 @@ def run_world(size, rng, policy, master_fn, mode="mpi", yield_on_send=False):
 
     main.master = master
     threads = [threading.Thread(target=body, args=(r,), daemon=True) for r in range(size)]
+    saved_stdout = sys.stdout
+    if verbose:
+        sys.stdout = io.StringIO()
     try:
         for t in threads:
             t.start()
@@ -224,6 +231,9 @@ def run_world(size, rng, policy, master_fn, mode="mpi", yield_on_send=False):
         for t in threads:
             t.join(timeout=30)
     finally:
+        if verbose:
+            out["printed"] = sys.stdout.getvalue()
+            sys.stdout = saved_stdout
         if had is None:
             main.__dict__.pop("master", None)
         else:
@@ -316,10 +326,35 @@ def classify(ex):
     return f"{type(ex).__name__}({msg[:80]})"
 
 
-def run_program(size, ops, rng, policy, mode="mpi"):
-    """returns (request line for the driver, implementation answer, observations)"""
+def tag_of(msg):
+    """the job's tag in a call tuple `(name, args, kwargs, module, time_est)`"""
+    return msg[1][0] if msg[1] else msg[2]["tag"]
+
+
+def uniquify(ops):
+    """give every submission a fresh id (what `id=None` does with random floats); collections
+    refer to the latest submission under the old id, unknown ids stay unknown"""
+    cur, n, res = {}, 0, []
+    for o in ops:
+        if o[0] == "s":
+            cur[o[1]] = n
+            res.append(("s", n) + tuple(o[2:]))
+            n += 1
+        elif o[0] == "g":
+            res.append(("g", cur.get(o[1], 1000 + o[1])))
+        else:
+            res.append(o)
+    return res
+
+
+def run_program(size, ops, rng, policy, mode="mpi", auto=False, verbose=False, use_kwargs=False):
+    """returns (request line for the driver, implementation answer, observations).
+    `auto`: every `submit_call` is made with `id=None` (the library draws the id; `ops` must
+    come from `uniquify`), `verbose`: `run(verbose=True)` on every rank, `use_kwargs`: the job's
+    argument travels in `kwargs` instead of `args`."""
     got = []
     state = {"todo": len(ops)}
+    real, back = {}, {}          # program id -> id used with the library and back
 
     def master_fn(m, world):
         for op in ops:
@@ -327,11 +362,14 @@ def run_program(size, ops, rng, policy, mode="mpi"):
             try:
                 if op[0] == "s":
                     _, i, p, e, sl = op
-                    m.submit_call("job", (p,), module=JOBS_MODULE, time_est=e, id=i, slave=sl)
+                    a, kw = ((), {"tag": p}) if use_kwargs else ((p,), {})
+                    rid = m.submit_call("job", a, kw, module=JOBS_MODULE, time_est=e,
+                                        id=None if auto else i, slave=sl)
+                    real[i], back[rid] = rid, i
                 elif op[0] == "g":
-                    got.append((op[1], m.get_result(op[1])))
+                    got.append((op[1], m.get_result(real.get(op[1], -7.5) if auto else op[1])))
                 else:
-                    i = m.queue[0] if m.queue else None
+                    i = back[m.queue[0]] if m.queue else None
                     v = m.get_next_result()
                     if i is not None:
                         got.append((i, v))
@@ -341,10 +379,10 @@ def run_program(size, ops, rng, policy, mode="mpi"):
             state["todo"] -= 1
             world.sched.append(0)
 
-    out = run_world(size, rng, policy, master_fn, mode)
+    out = run_world(size, rng, policy, master_fn, mode, verbose=verbose)
     w, m = out["world"], out["insts"][0]
     ranks = range(1, size)
-    sent = [(d, o[1][0]) for s, d, o in w.sends if s == 0 and o[0] != "terminate"]
+    sent = [(d, tag_of(o)) for s, d, o in w.sends if s == 0 and o[0] != "terminate"]
     if size < 2 or mode == "noimport":
         sent = list(w.execs)                   # single-process mode: executed by rank 0 at submit
     dash = lambda xs: ",".join(xs) if xs else "-"   # noqa
@@ -355,10 +393,20 @@ def run_program(size, ops, rng, policy, mode="mpi"):
            f"nproc={dash([str(int(m.n_processed[r])) for r in ranks])} "
            f"snproc={dash([str(int(out['insts'][r].n_processed[r])) for r in ranks])} "
            f"est={dash([str(int(m.total_time_est[r])) for r in ranks])} "
-           f"left={dash([str(i) for i in m.queue])} "
-           f"assigned={dash([f'{i}:{int(s)}' for i, s in m.assigned.items()])} "
+           f"left={dash([str(back[i]) for i in m.queue])} "
+           f"assigned={dash([f'{back[i]}:{int(s)}' for i, s in m.assigned.items()])} "
            f"alive={dash(['0' if out['returned'].get(r) else '1' for r in ranks])} "
            f"todo={state['todo']} skipped=0")
+    # round 5: what is left in the channels and the termination measure of the final state,
+    # computed from the world (not from the model): 2·(calls master() has not made) + size + 1
+    # while the master is neither done nor has raised, + messages waiting master -> slave
+    msize = 1 if mode == "noimport" else size
+    inbox = [len(w.chan[(0, r)]) for r in ranks]
+    outbox = [len(w.chan[(r, 0)]) for r in ranks]
+    dead = bool(out["returned"].get(0)) or out["exc"] is not None
+    measure = (0 if dead else 2 * state["todo"] + msize + 1) + sum(inbox)
+    ans += (f" inbox={dash([str(x) for x in inbox])} outbox={dash([str(x) for x in outbox])} "
+            f"steps={len(w.sched)} measure={measure} measure0={2 * len(ops) + msize + 1}")
     req = (f"proto {1 if mode == 'noimport' else size} {dash([op_str(o) for o in ops])} "
            f"{dash([str(c) for c in w.sched])}")
     return req, ans, out, got
